@@ -14,11 +14,11 @@ from . import canboat
 from .canboat import Definition, Field
 
 # classes whose raw value lies inside the database range (or is the not-available code)
-IN_CLASSES = ("zero_in", "range_min", "range_max", "just_in_lo", "just_in_hi", "na", "uniform_in", "one_in", "value_zero", "value_one", "source_constant")
+IN_CLASSES = ("zero_in", "range_min", "range_max", "just_in_lo", "just_in_hi", "na", "uniform_in", "one_in", "value_zero", "value_one", "source_constant", "magnitude_edge")
 OUT_CLASSES = ("just_out_lo", "just_out_hi", "all_ones", "na_minus_1", "sign_lo", "sign_hi", "sign_hi1", "uniform", "zero")
 BOUNDARY = ("range_min", "range_max", "just_in_lo", "just_in_hi", "na", "just_out_lo", "just_out_hi", "all_ones",
             "na_minus_1", "sign_lo", "sign_hi", "sign_hi1", "table_miss", "f_special", "str_multibyte", "str_utf16",
-            "str_empty", "str_max", "str_bytes", "match_foreign", "match_bitflip", "source_constant", "value_zero", "value_one")
+            "str_empty", "str_max", "str_bytes", "match_foreign", "match_bitflip", "source_constant", "value_zero", "value_one", "magnitude_edge")
 
 
 def _unsigned(f: Field, s: int) -> int:
@@ -132,6 +132,31 @@ def number_classes(f: Field):
     cands -= {v for v in out.values() if isinstance(v, int)}
     if cands:
         out["source_constant"] = ("choice", sorted(cands)[:200])
+    # magnitudes where arithmetic changes character: raws and VALUES at 2^k-1, 2^k, 2^k+1 and 10^k-1, 10^k, 10^k+1 (also negative),
+    # and raws with regular byte patterns
+    edge = set()
+    if b:
+        mags = [2 ** k for k in range(1, n + 1)] + [10 ** k for k in range(1, 20) if 10 ** k < (1 << n)]
+        for m in mags:
+            for c in (m - 1, m, m + 1):
+                for sgn in ((1, -1) if b[0] < 0 else (1,)):
+                    for r in (Fraction(sgn * c), (Fraction(sgn * c) - off) / f.res):
+                        for rr in (r.__floor__(), r.__ceil__()):
+                            if b[0] <= rr <= b[1]:
+                                edge.add(_unsigned(f, rr))
+        if n >= 16:
+            for pat in (0x55, 0xAA, 0x0F, 0xF0, 0x01, 0x80, 0x7F, 0xFE):
+                for v in (int.from_bytes(bytes([pat]) * ((n + 7) // 8), "little") & full, (pat << (n - 8)) & full, pat):
+                    sv = v - (1 << n) if (f.signed and f.offset is None and v >> (n - 1)) else v
+                    if b[0] <= sv <= b[1]:
+                        edge.add(v)
+    edge -= {v for v in out.values() if isinstance(v, int)}
+    if edge:
+        edge = sorted(edge)
+        if len(edge) > 160:
+            step = len(edge) / 160.0
+            edge = [edge[int(i * step)] for i in range(160)]
+        out["magnitude_edge"] = ("choice", edge)
     return out
 
 
